@@ -360,6 +360,15 @@ func TestC20(t *testing.T) {
 			default:
 				n = rapid.IntRange(0, 8).Draw(t, "nrec")
 			}
+			if zi == 0 && rapid.IntRange(0, 39).Draw(t, "hosting_provider_zone") == 0 {
+				// a zone with well over a thousand HTTPS records: the records this case works on
+				// are listed on page 51 and later
+				for i, m := 0, 1000+rapid.IntRange(1, 60).Draw(t, "bulk_records"); i < m; i++ {
+					rid++
+					z.Records = append(z.Records, &cfRecord{ID: fmt.Sprintf("rec%d", rid), Name: fmt.Sprintf("bulk%d.%s", i, z.Name), Type: "HTTPS", Priority: 1, Target: ".", Value: "alpn=h2"})
+				}
+				cl = append(cl, "zone_over_1000_records")
+			}
 			heavy := n >= 20 && rapid.Bool().Draw(t, "heavy_values")
 			if heavy {
 				cl = append(cl, "listing_page_over_16k")
